@@ -565,4 +565,32 @@ theorem rerunInvs_ok (ops : List Op) (h : ∀ o ∈ ops, opOk o = true) : rerunI
 example : rerunInvs [.buildFile ["x"] .hash "f" .null .null [] .null .null true false "", .subbuild "g" .null .null [] .null false false] =
     [⟨"f", some ["x"], .null, .null⟩] := rfl
 
+
+/-! ### non-vacuity: a program whose only call raises; the second run repeats it -/
+
+def rrRoot : Prog := .buildFile ["x"] .hash "f" .null .null (.raise (.user 1)) (fun _ => .ret .null)
+theorem flat_rrRoot : Flat rrRoot := .buildFile _ _ _ _ _ _ _ (.raise _) (by simp [isEqual]) (by simp [isEqual]) (fun _ => .ret _)
+
+theorem rr_first : (Impl.run rrRoot none fxS).2.2 = [.buildFile ["x"] .hash "f" .null .null [] .null .null true false ""] := by
+  have h : dirsToMake (visible fxS.sp) fxS.sp.cacheFile fxS.sp.inProg [] = .ok [] := by rw [dirsToMake]; simp
+  simp [rrRoot, Impl.run, bfSetup, fxS, FS.isDir, FS.get, lookupFile, CacheRec.getFile, registeredL,
+    afterSetup, missStart, liftSp, sanitize, bfFinish, pendingFind, withSp, setupState, mkdirs,
+    FS.isFile, FS.set, FS.erase, clearWay] at h ⊢
+  rw [h]
+  simp [pendingFind, bfFinish, withSp, sanitize]
+
+def rrS' : KSt := { sp := { fs := [], cacheFile := ["c"], dirSize := 4096, clock := 50 },
+                    old := { buildName := "n", roots := [.buildFile ["x"] .hash "f" .null .null [] .null .null true false ""] } }
+
+/-- the hypotheses of `flat_rerun` are satisfiable with a call that raised: it is the one call repeated -/
+example : (Impl.run rrRoot none rrS').2.1.sp.invLog = [⟨"f", some ["x"], .null, .null⟩] := by
+  have hops := rr_first
+  have h := flat_rerun flat_rrRoot fxS rrS' rfl ⟨⟨rfl, rfl, rfl, rfl, rfl, rfl, rfl, rfl, rfl, rfl⟩, rfl, rfl⟩
+    (fun f => by simp [versionOk, rrS', verOf, isEqual])
+    (by rw [hops]; intro o ho _; simp at ho; subst ho
+        simp [cachedIn, rrS', CacheRec.getFile, registeredL, registered, Op.isFileAt])
+    (by rw [hops]; simp [allTargets, Antichain])
+    (by rw [hops]; intro p hp; simp [topOuts] at hp)
+  rw [h.2.1, hops]
+  rfl
 end FB
